@@ -286,5 +286,12 @@ def run(repo, check):
     for f in r5.findings:
         f.rule = 'C12.R5'
     check.add(r5)
+    from sa.rules import c08
+    r6 = c08.rule_r5(repo)
+    r6.rule = 'C12.R6'
+    r6.title = 'a damaged descriptor list never hits the compiled template of an intact sibling: complete cache key (shared with C08.R5)'
+    for f in r6.findings:
+        f.rule = 'C12.R6'
+    check.add(r6)
     check.assumptions = ['implicit exceptions (IndexError, KeyError, ...) are outside the claim; only explicit raise/assert sites are decided',
                          'bitstring raises a subclass of bitstring.Error on a read past the end']
